@@ -22,6 +22,7 @@ import json
 import logging
 import os
 import pickle
+import re
 import shutil
 import signal
 import sys
@@ -495,18 +496,21 @@ class Scheduler:
                     e, what = st[2], st[3]
                     fname = self.keyfile[e]
                     full = pickle.dumps((self.exprs[e], self.doits[e]))
-                    data = {"garbage": b"\x00not a pickle\xff" * 3, "truncated": full[: len(full) // 2], "empty-ish": full[:1],
-                            "foreign": pickle.dumps({"answer": 42}), "oldformat": pickle.dumps(self.doits[e]),
-                            "wrongpair": pickle.dumps((self.exprs[e], 1))}[what]
+                    if what in DAMAGED_KINDS:
+                        data = _damaged(full, what)
+                    else:
+                        data = {"garbage": b"\x00not a pickle\xff" * 3, "truncated": full[: len(full) // 2], "empty-ish": full[:1],
+                                "foreign": pickle.dumps({"answer": 42}), "oldformat": pickle.dumps(self.doits[e]),
+                                "wrongpair": pickle.dumps((self.exprs[e], 1))}[what]
                     with open(os.path.join(d, fname), "wb") as f:
                         f.write(data)
                     self.planted_names[fname] = True
                     try:
                         pickle.loads(data)
-                        complete = 1
-                    except Exception:  # noqa: BLE001
-                        complete = 0
-                    log("Plant", p, name=self.keyname[fname], what=what, complete=complete)
+                        complete, exc = 1, ""
+                    except Exception as ex:  # noqa: BLE001
+                        complete, exc = 0, type(ex).__name__
+                    log("Plant", p, name=self.keyname[fname], what=what, complete=complete, exc=exc)
                 elif kind == "step":
                     if p in kids:
                         perform(p, st[2] if len(st) > 2 else "")
@@ -540,6 +544,56 @@ class Scheduler:
             self.planted_names = {}
             shutil.rmtree(d, ignore_errors=True)
         return events
+
+
+class _BadCtor:
+    """pickles as a call sympy.Symbol() without arguments: loading raises TypeError"""
+
+    def __reduce__(self):
+        import sympy as sp
+
+        return (sp.Symbol, ())
+
+
+class _Plain:
+    pass
+
+
+class _BadSympify:
+    """pickles as sympy.Add(<arbitrary object>): loading raises SympifyError"""
+
+    def __reduce__(self):
+        import sympy as sp
+
+        return (sp.Add, (_Plain(),))
+
+
+def _damaged(full: bytes, what: str) -> bytes:
+    """Entries that fail to load, one per exception type a damaged or foreign file can raise in pickle.load
+    (whatever list of exception types the reader expects): the ways a single damaged byte of a valid entry fails
+    (UnicodeDecodeError, OverflowError, ValueError, TypeError, SympifyError, ModuleNotFoundError, AttributeError)
+    constructed directly instead of searched for (loading arbitrary damaged entries can be arbitrarily expensive)."""
+    if what == "text-pickle":            # protocol-0 integer with a non-numeric literal: ValueError
+        return b"Iabc\n."
+    if what == "bad-constructor":        # TypeError
+        return pickle.dumps(_BadCtor())
+    if what == "bad-utf8":               # a damaged byte inside the name of a symbol of the valid entry: UnicodeDecodeError
+        m = re.search(rb"\x8c([\x01-\x10])([a-zA-Z_])", full)
+        if m:
+            return full[: m.start(2)] + b"\xf8" + full[m.end(2):]
+        return b"\x80\x04\x8c\x01\xf8."
+    if what == "oversize-length":        # a length field that exceeds the address space: OverflowError
+        return b"\x80\x04\x8d" + b"\xff" * 8 + b"abc."
+    if what == "sympify-error":          # SympifyError
+        return pickle.dumps(_BadSympify())
+    if what == "missing-module":         # ModuleNotFoundError
+        return b"cno_such_module_for_this_entry\nX\n."
+    if what == "missing-class":          # AttributeError
+        return b"csympy\nNoSuchClassInThisVersion\n."
+    raise KeyError(what)
+
+
+DAMAGED_KINDS = ("text-pickle", "bad-constructor", "bad-utf8", "oversize-length", "sympify-error", "missing-module", "missing-class")
 
 
 def main():
